@@ -1,4 +1,5 @@
 import BoltonsVerif.C11.Model
+import BoltonsVerif.C11.Spec
 /-
 C11 — helper lemmas: the association-list dict, live counts, dead-interval chains,
 index translation, `_add_dead`, `_cull`/`_compact`, the representation invariant `Inv`
@@ -795,3 +796,1272 @@ theorem toList_compact (s : ISet α) (h : InvC s) : Inv (compact s) ∧ (compact
     have := inv_rebuild s h (live s.items) (List.Perm.refl _)
     exact ⟨this, by simp [ISet.toList, live_map_some]⟩
 
+
+/-! ### `_cull` -/
+
+/-- split a list at the end of its longest `p`-suffix -/
+theorem rev_split {β : Type} (p : β → Bool) (l : List β) :
+    ∃ A T, l = A ++ T ∧ (l.reverse.takeWhile p).length = T.length ∧
+      (l.reverse.dropWhile p).reverse = A ∧ (∀ x ∈ T, p x = true) ∧
+      (∀ A' a, A = A' ++ [a] → p a = false) := by
+  obtain ⟨P, Q, h1, h2, h3, h4⟩ := takeWhile_split p l.reverse
+  have hdw : l.reverse.dropWhile p = Q := by
+    have := @List.takeWhile_append_dropWhile _ p l.reverse
+    rw [h2] at this
+    conv at this => rhs; rw [h1]
+    exact List.append_cancel_left this
+  refine ⟨Q.reverse, P.reverse, ?_, by simp [h2], by rw [hdw], ?_, ?_⟩
+  · have := congrArg List.reverse h1
+    simpa using this
+  · intro x hx; exact h3 x (by simpa using hx)
+  · intro A' a hA
+    have : Q = a :: A'.reverse := by
+      have := congrArg List.reverse hA
+      simpa using this
+    exact h4 a _ this
+
+theorem chain_tighten_hi : ∀ (d : List (Nat × Nat)) (lo hi n : Nat), Chain lo d hi → lo ≤ n →
+    (∀ p ∈ d, p.2 ≤ n) → Chain lo d n
+  | [], lo, hi, n, _, h, _ => h
+  | (a, b) :: ds, lo, hi, n, hc, h, hp =>
+    ⟨hc.1, hc.2.1, chain_tighten_hi ds b hi n hc.2.2 (hp (a, b) (by simp)) (fun p hm => hp p (by simp [hm]))⟩
+
+theorem lastLive_of_no_dead (s : ISet α) (h : InvC s) (hd : s.dead = []) : s.items.getLast? ≠ some none := by
+  intro hl
+  rw [List.getLast?_eq_getElem?] at hl
+  have hlt := getElem?_lt hl
+  have := (h.tombs _ (Nat.zero_le _) hlt).1 hl
+  rw [hd] at this; simp at this
+
+theorem cull_spec (cfg : Cfg) (s : ISet α) (h : InvC s) :
+    Inv (cull cfg s) ∧ (cull cfg s).toList = s.toList := by
+  unfold cull
+  by_cases h1 : s.dead.isEmpty = true
+  · simp only [h1, if_true]
+    exact ⟨{ toInvC := h, lastLive := lastLive_of_no_dead s h (by simpa using h1) }, trivial⟩
+  simp only [h1, Bool.false_eq_true, if_false]
+  by_cases h2 : s.idx.isEmpty = true
+  · simp only [h2, if_true]
+    have hidx : s.idx = [] := by simpa using h2
+    have hlive : live s.items = [] := by
+      have := h.perm
+      rw [hidx] at this
+      simpa using this.symm.eq_nil
+    refine ⟨{ nodup := by simp, perm := by simp [hidx], look := ?_, chain := by simp [Chain],
+              tombs := ?_, lastLive := by simp }, by simp [ISet.toList, hlive]⟩
+    · intro x i hl; simp [hidx, IMap.lookup] at hl
+    · intro j _ hj; simp at hj
+  simp only [h2, Bool.false_eq_true, if_false]
+  by_cases h3 : s.dead.length > cfg.limit
+  · simp only [h3, if_true]; exact toList_compact s h
+  simp only [h3, if_false]
+  by_cases h4 : (s.items.length - s.idx.length) * cfg.factor > s.items.length
+  · simp only [h4, if_true]; exact toList_compact s h
+  simp only [h4, if_false]
+  by_cases h5 : s.items.getLast? = some none
+  · simp only [h5, if_true]
+    obtain ⟨A, T, hAT, hTlen, _, hT, hA⟩ := rev_split isTomb s.items
+    have hTnone : ∀ o ∈ T, o = none := by
+      intro o ho; have := hT o ho; cases o <;> simp [isTomb] at this ⊢
+    have hliveT : live T = [] := by
+      have : ∀ (T : List (Option α)), (∀ o ∈ T, o = none) → live T = [] := by
+        intro T; induction T with
+        | nil => intro _; rfl
+        | cons o T ih =>
+          intro h
+          have := h o (by simp); subst this
+          rw [live_cons_none]; exact ih (fun o ho => h o (by simp [ho]))
+      exact this T hTnone
+    have htake : s.items.take (s.items.length - trailingDead s.items) = A := by
+      unfold trailingDead
+      rw [hTlen]
+      have hl : s.items.length - T.length = A.length := by rw [hAT]; simp
+      rw [hl]
+      conv => lhs; rw [hAT]
+      exact List.take_left
+    rw [htake]
+    have hliveA : live A = live s.items := by
+      conv => rhs; rw [hAT]
+      rw [live_append, hliveT]; simp
+    obtain ⟨D, R, hDR, _, hpop, hR, hD⟩ := rev_split (startsAtOrAfter A.length) s.dead
+    have hpop' : popDeadFrom s.dead A.length = D := by unfold popDeadFrom; exact hpop
+    rw [hpop']
+    have hAget : ∀ j, j < A.length → A[j]? = s.items[j]? := by
+      intro j hj
+      conv => rhs; rw [hAT]
+      rw [List.getElem?_append_left hj]
+    have hTget : ∀ j, A.length ≤ j → j < s.items.length → s.items[j]? = some none := by
+      intro j h1 h2
+      have hmem : s.items[j]? = T[j - A.length]? := by
+        conv => lhs; rw [hAT]
+        rw [List.getElem?_append_right h1]
+      have hlt : j - A.length < T.length := by
+        have : s.items.length = A.length + T.length := by conv => lhs; rw [hAT]; simp
+        omega
+      rw [hmem, List.getElem?_eq_getElem hlt, hTnone _ (List.getElem_mem hlt)]
+    have hlastA : A.getLast? ≠ some none := by
+      intro hl
+      rcases List.eq_nil_or_concat A with hn | ⟨A', a, hc⟩
+      · subst hn; simp at hl
+      · rw [List.concat_eq_append] at hc
+        have := hA A' a hc
+        subst hc
+        simp at hl; subst hl; simp [isTomb] at this
+    have hRnot : ∀ j, j < A.length → ¬ DeadAt R j := by
+      rintro j hj ⟨p, hp, hp1, _⟩
+      have := hR p hp
+      simp [startsAtOrAfter] at this
+      omega
+    have hlen : A.length ≤ s.items.length := by
+      have : s.items.length = A.length + T.length := by conv => lhs; rw [hAT]; simp
+      omega
+    refine ⟨{ nodup := ?_, perm := ?_, look := ?_, chain := ?_, tombs := ?_, lastLive := hlastA }, ?_⟩
+    · show (live A).Nodup
+      rw [hliveA]; exact h.nodup
+    · show (IMap.keys s.idx).Perm (live A)
+      rw [hliveA]; exact h.perm
+    · intro x i hl
+      show A[i]? = some (some x)
+      have hi := h.look x i hl
+      have hlt : i < A.length := by
+        rcases Nat.lt_or_ge i A.length with h' | h'
+        · exact h'
+        · have := hTget i h' (getElem?_lt hi)
+          rw [hi] at this; simp at this
+      rw [hAget i hlt]; exact hi
+    · show Chain 0 D A.length
+      have hc := h.chain
+      rw [hDR, chain_append] at hc
+      obtain ⟨m, hcD, _⟩ := hc
+      apply chain_tighten_hi D 0 m A.length hcD (Nat.zero_le _)
+      intro p hp
+      -- an interval reaching beyond `A` would cover either `A`'s last slot or start at/after `A.length`
+      have hpm : p ∈ s.dead := by rw [hDR]; exact List.mem_append_left _ hp
+      have hcp := chain_mem s.dead 0 s.items.length p h.chain hpm
+      rcases Nat.lt_or_ge A.length p.2 with hgt | hle
+      · exfalso
+        rcases Nat.lt_or_ge p.1 A.length with hlt | hge
+        · -- covers slot A.length - 1, which is live
+          have hpos : 0 < A.length := by omega
+          have hdead : s.items[A.length - 1]? = some none :=
+            (h.tombs _ (Nat.zero_le _) (by omega)).2 ⟨p, hpm, by omega, by omega⟩
+          rw [← hAget _ (by omega), ← List.getLast?_eq_getElem?] at hdead
+          exact hlastA hdead
+        · -- starts at or after A.length: then so does every later interval, and D's last one does not
+          rcases List.eq_nil_or_concat D with hn | ⟨D', z, hc⟩
+          · subst hn; simp at hp
+          · rw [List.concat_eq_append] at hc
+            have hz := hD D' z hc
+            simp [startsAtOrAfter] at hz
+            subst hc
+            rcases List.mem_append.1 hp with hp' | hp'
+            · rw [chain_append] at hcD
+              obtain ⟨m', hc1, hc2⟩ := hcD
+              have := chain_mem D' 0 m' p hc1 hp'
+              simp only [Chain] at hc2
+              omega
+            · simp at hp'; subst hp'; omega
+      · exact hle
+    · intro j _ hj
+      show A[j]? = some none ↔ DeadAt D j
+      have hj : j < A.length := hj
+      rw [hAget j hj, h.tombs j (Nat.zero_le _) (by omega), hDR, deadAt_append]
+      constructor
+      · rintro (h' | h')
+        · exact h'
+        · exact absurd h' (hRnot j hj)
+      · exact Or.inl
+    · show live A = live s.items
+      exact hliveA
+  · simp only [h5, if_false]
+    exact ⟨{ toInvC := h, lastLive := h5 }, trivial⟩
+
+
+/-! ## F. every method refines the plain-list operation -/
+
+theorem remove_spec (cfg : Cfg) (s : ISet α) (h : Inv s) (x : α) :
+    (x ∈ s.toList → ∃ s', s.remove cfg x = .ok s' ∧ Inv s' ∧ s'.toList = s.toList.erase x) ∧
+    (x ∉ s.toList → s.remove cfg x = .error .keyError) := by
+  unfold ISet.remove
+  constructor
+  · intro hx
+    have hc := (h.toInvC.contains_iff x).2 hx
+    unfold ISet.contains at hc
+    cases hl : IMap.lookup s.idx x with
+    | none => rw [hl] at hc; cases hc
+    | some i =>
+      have hk := invC_kill s h.toInvC i x (h.look x i hl)
+      have hcull := cull_spec cfg _ hk.1
+      refine ⟨_, rfl, hcull.1, ?_⟩
+      rw [hcull.2]; exact hk.2
+  · intro hx
+    have : IMap.lookup s.idx x = none := by
+      cases hl : IMap.lookup s.idx x with
+      | none => rfl
+      | some i =>
+        exfalso; apply hx
+        apply (h.toInvC.contains_iff x).1
+        unfold ISet.contains; rw [hl]; rfl
+    rw [this]
+
+theorem discard_spec (cfg : Cfg) (s : ISet α) (h : Inv s) (x : α) :
+    Inv (s.discard cfg x) ∧ (s.discard cfg x).toList = s.toList.erase x := by
+  unfold ISet.discard
+  by_cases hx : x ∈ s.toList
+  · obtain ⟨s', h1, h2, h3⟩ := (remove_spec cfg s h x).1 hx
+    rw [h1]; exact ⟨h2, h3⟩
+  · rw [(remove_spec cfg s h x).2 hx]
+    exact ⟨h, (List.erase_of_not_mem hx).symm⟩
+
+theorem live_dropLast_some (l : List (Option α)) (x : α) (h : l.getLast? = some (some x)) :
+    live l = live l.dropLast ++ [x] := by
+  rcases List.eq_nil_or_concat l with hn | ⟨A, a, hc⟩
+  · subst hn; simp at h
+  · rw [List.concat_eq_append] at hc; subst hc
+    simp at h; subst h
+    simp [live_append]
+
+theorem popLast_spec (cfg : Cfg) (s : ISet α) (h : Inv s) :
+    (∀ hne : s.toList ≠ [], ∃ s', s.popLast cfg = .ok (s', s.toList.getLast hne) ∧ Inv s' ∧
+        s'.toList = s.toList.dropLast) ∧
+    (s.toList = [] → s.popLast cfg = .error .indexError) := by
+  unfold ISet.popLast
+  cases hl : s.items.getLast? with
+  | none =>
+    have : s.items = [] := by simpa using hl
+    constructor
+    · intro hne; exfalso; apply hne; simp [ISet.toList, this]
+    · intro _; rfl
+  | some o =>
+    cases o with
+    | none => exact absurd hl h.lastLive
+    | some x =>
+      have hlive := live_dropLast_some s.items x hl
+      have hxnot : x ∉ live s.items.dropLast := by
+        intro hm
+        have := h.nodup
+        rw [hlive, List.nodup_append] at this
+        exact this.2.2 x hm x (by simp) rfl
+      have hne' : s.items ≠ [] := by intro e; rw [e] at hl; simp at hl
+      have hlen : 0 < s.items.length := by cases hi : s.items with | nil => exact absurd hi hne' | cons a b => simp
+      have hslot : s.items[s.items.length - 1]? = some (some x) := by
+        rw [← List.getLast?_eq_getElem?]; exact hl
+      have hpre : InvC (⟨s.items.dropLast, IMap.erase s.idx x, s.dead⟩ : ISet α) := by
+        have hget : ∀ j, j < s.items.length - 1 → s.items.dropLast[j]? = s.items[j]? := by
+          intro j hj
+          rw [List.dropLast_eq_take, List.getElem?_take]; simp [hj]
+        refine { nodup := ?_, perm := ?_, look := ?_, chain := ?_, tombs := ?_ }
+        · show (live s.items.dropLast).Nodup
+          have := h.nodup
+          rw [hlive, List.nodup_append] at this
+          exact this.1
+        · show (IMap.keys (IMap.erase s.idx x)).Perm (live s.items.dropLast)
+          rw [IMap.keys_erase]
+          have := h.perm.erase x
+          rw [hlive, List.erase_append_right _ hxnot] at this
+          simpa using this
+        · intro y j hly
+          show s.items.dropLast[j]? = some (some y)
+          have hyx : x ≠ y := by
+            intro e; subst e
+            rw [IMap.lookup_erase_self _ _ h.toInvC.keys_nodup] at hly; cases hly
+          rw [IMap.lookup_erase_ne _ _ _ hyx] at hly
+          have hj := h.look y j hly
+          have hjl := getElem?_lt hj
+          have : j ≠ s.items.length - 1 := by
+            intro e; subst e; rw [hslot] at hj; simp at hj; exact hyx hj
+          rw [hget j (by omega)]; exact hj
+        · show Chain 0 s.dead s.items.dropLast.length
+          rw [List.length_dropLast]
+          apply chain_tighten_hi s.dead 0 _ _ h.chain (Nat.zero_le _)
+          intro p hp
+          have hcp := chain_mem s.dead 0 _ p h.chain hp
+          rcases Nat.lt_or_ge (s.items.length - 1) p.2 with hgt | hle
+          · exfalso
+            have := (h.tombs (s.items.length - 1) (Nat.zero_le _) (by omega)).2 ⟨p, hp, by omega, by omega⟩
+            rw [hslot] at this; simp at this
+          · exact hle
+        · intro j _ hj
+          show s.items.dropLast[j]? = some none ↔ DeadAt s.dead j
+          have hj : j < s.items.dropLast.length := hj
+          rw [List.length_dropLast] at hj
+          rw [hget j hj]; exact h.tombs j (Nat.zero_le _) (by omega)
+      have hcull := cull_spec cfg _ hpre
+      constructor
+      · intro hne
+        refine ⟨_, ?_, hcull.1, ?_⟩
+        · have : s.toList.getLast hne = x := by
+            have e : s.toList = live s.items.dropLast ++ [x] := hlive
+            simp [e]
+          rw [this]
+        · rw [hcull.2]
+          show live s.items.dropLast = (live s.items).dropLast
+          rw [hlive]; simp
+      · intro he
+        exfalso
+        have : live s.items = [] := he
+        rw [hlive] at this; simp at this
+
+
+/-- index translation = list indexing: the real slot of apparent index `k` holds the `k`-th item -/
+theorem slot_of_index (s : ISet α) (h : InvC s) (k : Nat) (hk : k < s.toList.length) :
+    s.items[realLoop k s.dead]? = some (some s.toList[k]) := by
+  have hspec := realLoop_spec s.items s.dead 0 k h.chain h.tombs (by
+    rw [lc_zero, lc_length]; simpa [ISet.toList] using hk)
+  rw [Nat.zero_add, lc_zero, Nat.zero_add] at hspec
+  obtain ⟨hr, hlive, hlc⟩ := hspec
+  rw [List.getElem?_eq_getElem hr] at hlive ⊢
+  cases ho : s.items[realLoop k s.dead] with
+  | none => rw [ho] at hlive; exact absurd rfl hlive
+  | some x =>
+    have := live_getElem_lc s.items (realLoop k s.dead) x (by rw [List.getElem?_eq_getElem hr, ho])
+    rw [hlc] at this
+    have hx : s.toList[k] = x := by
+      have h2 : s.toList[k]? = some x := this
+      rw [List.getElem?_eq_getElem hk] at h2
+      simpa using h2
+    rw [hx]
+
+/-- the apparent index of a live slot is the position of its item in the iteration -/
+theorem index_of_slot (s : ISet α) (h : InvC s) (r : Nat) (x : α) (hr : s.items[r]? = some (some x)) :
+    appLoop r r s.dead = s.toList.idxOf x := by
+  have hrl := getElem?_lt hr
+  have hlive : s.items[r]? ≠ some none := by rw [hr]; simp
+  rw [appLoop_spec s.items s.dead 0 r r h.chain h.tombs (Nat.zero_le _) hrl hlive]
+  have hget := live_getElem_lc s.items r x hr
+  have hlt := getElem?_lt hget
+  have hle := (lc_mono s.items (Nat.zero_le r))
+  simp only [lc_zero, Nat.sub_zero] at hle ⊢
+  have : (live s.items).idxOf x = lc s.items r := by
+    rw [List.getElem?_eq_getElem hlt] at hget
+    have hx : (live s.items)[lc s.items r] = x := by simpa using hget
+    rw [← hx]; exact h.nodup.idxOf_getElem _ hlt
+  show r - (r - lc s.items r) = (live s.items).idxOf x
+  rw [this]; omega
+
+theorem normIndex_nonneg (s : ISet α) (k : Nat) : s.normIndex (k : Int) = some k := by
+  unfold ISet.normIndex
+  have : ¬ ((k : Int) < 0) := by omega
+  simp [this]
+
+theorem normIndex_neg (s : ISet α) (k : Nat) (hk : k < s.len) :
+    s.normIndex ((k : Int) - (s.len : Int)) = some k := by
+  unfold ISet.normIndex
+  have h1 : (k : Int) - (s.len : Int) < 0 := by omega
+  have h2 : ¬ ((k : Int) - (s.len : Int) + (s.len : Int) < 0) := by omega
+  simp only [h1, h2, if_true, if_false]
+  congr 1
+  omega
+
+/-- `s[i]` for every valid index, negative included -/
+theorem getItem_spec (s : ISet α) (h : Inv s) (k : Nat) (hk : k < s.toList.length) (i : Int)
+    (hi : i = (k : Int) ∨ i = (k : Int) - (s.toList.length : Int)) :
+    s.getItem i = .ok s.toList[k] := by
+  have hn : s.normIndex i = some k := by
+    rcases hi with hi | hi
+    · rw [hi]; exact normIndex_nonneg s k
+    · rw [hi, ← h.toInvC.len_eq]; exact normIndex_neg s k (by rw [h.toInvC.len_eq]; exact hk)
+  unfold ISet.getItem
+  rw [hn]
+  simp only [slot_of_index s h.toInvC k hk]
+
+/-- `index(x)` -/
+theorem index_spec (s : ISet α) (h : Inv s) (x : α) :
+    (x ∈ s.toList → s.index x = .ok (s.toList.idxOf x)) ∧
+    (x ∉ s.toList → s.index x = .error .valueError) := by
+  unfold ISet.index
+  constructor
+  · intro hx
+    have hc := (h.toInvC.contains_iff x).2 hx
+    unfold ISet.contains at hc
+    cases hl : IMap.lookup s.idx x with
+    | none => rw [hl] at hc; cases hc
+    | some r =>
+      simp only
+      rw [index_of_slot s h.toInvC r x (h.look x r hl)]
+  · intro hx
+    cases hl : IMap.lookup s.idx x with
+    | none => rfl
+    | some r =>
+      exfalso; apply hx
+      apply (h.toInvC.contains_iff x).1
+      unfold ISet.contains; rw [hl]; rfl
+
+/-- `pop(i)` for every valid index, negative included -/
+theorem popAt_spec (cfg : Cfg) (s : ISet α) (h : Inv s) (k : Nat) (hk : k < s.toList.length) (i : Int)
+    (hi : i = (k : Int) ∨ i = (k : Int) - (s.toList.length : Int)) :
+    ∃ s', s.popAt cfg i = .ok (s', s.toList[k]) ∧ Inv s' ∧ s'.toList = s.toList.eraseIdx k := by
+  have hlen := h.toInvC.len_eq
+  unfold ISet.popAt
+  by_cases hlast : i = -1 ∨ i = (s.len : Int) - 1
+  · -- the last item: `item_list.pop()`
+    simp only [hlast, if_true]
+    have hkl : k = s.toList.length - 1 := by
+      rw [hlen] at hlast
+      rcases hi with hi | hi <;> rcases hlast with hl | hl <;> omega
+    have hne : s.toList ≠ [] := by intro e; rw [e] at hk; simp at hk
+    obtain ⟨s', h1, h2, h3⟩ := (popLast_spec cfg s h).1 hne
+    refine ⟨s', ?_, h2, ?_⟩
+    · rw [h1]
+      have : s.toList.getLast hne = s.toList[k] := by
+        rw [List.getLast_eq_getElem]; simp [hkl]
+      rw [this]
+    · rw [h3, hkl, List.dropLast_eq_take, List.eraseIdx_eq_take_drop_succ]
+      have : s.toList.length - 1 + 1 = s.toList.length := by omega
+      rw [this]; simp
+  · simp only [hlast, if_false]
+    have hn : s.normIndex i = some k := by
+      rcases hi with hi | hi
+      · rw [hi]; exact normIndex_nonneg s k
+      · rw [hi, ← hlen]; exact normIndex_neg s k (by rw [hlen]; exact hk)
+    rw [hn]
+    simp only
+    have hslot := slot_of_index s h.toInvC k hk
+    simp only [hslot]
+    have hkill := invC_kill s h.toInvC _ _ hslot
+    have hcull := cull_spec cfg _ hkill.1
+    refine ⟨_, rfl, hcull.1, ?_⟩
+    rw [hcull.2]
+    show live (s.items.set (realLoop k s.dead) none) = s.toList.eraseIdx k
+    rw [hkill.2]
+    show s.toList.erase s.toList[k] = s.toList.eraseIdx k
+    exact List.erase_eq_eraseIdx_of_idxOf (h.nodup.idxOf_getElem k hk)
+
+
+theorem reversed_eq (s : ISet α) : s.reversed = s.toList.reverse := live_reverse s.items
+
+theorem reverse_spec (s : ISet α) (h : Inv s) : Inv s.reverse ∧ s.reverse.toList = s.toList.reverse := by
+  unfold ISet.reverse
+  have hp : s.reversed.Perm (live s.items) := by rw [reversed_eq]; exact List.reverse_perm _
+  refine ⟨inv_rebuild s h.toInvC _ hp, ?_⟩
+  show live (s.reversed.map some) = s.toList.reverse
+  rw [live_map_some, reversed_eq]
+
+theorem sortedList_perm (le : α → α → Bool) (rev : Bool) (l : List α) : (ISet.sortedList le rev l).Perm l := by
+  unfold ISet.sortedList
+  cases rev
+  · simp; exact List.mergeSort_perm l le
+  · simp
+    exact (List.reverse_perm _).trans ((List.mergeSort_perm _ le).trans (List.reverse_perm l))
+
+theorem sort_spec (le : α → α → Bool) (rev : Bool) (s : ISet α) (h : Inv s) :
+    Inv (s.sort le rev) ∧ (s.sort le rev).toList = ISet.sortedList le rev s.toList := by
+  unfold ISet.sort
+  by_cases he : (ISet.sortedList le rev s.toList).map some = s.items
+  · simp only [he, if_true]
+    refine ⟨h, ?_⟩
+    conv => lhs; unfold ISet.toList; rw [← he, live_map_some]
+  · simp only [he, if_false]
+    exact ⟨inv_rebuild s h.toInvC _ (sortedList_perm le rev _), by simp [ISet.toList, live_map_some]⟩
+
+theorem clear_spec (s : ISet α) : Inv s.clear ∧ s.clear.toList = [] := ⟨inv_empty, rfl⟩
+
+/-! ### folds of `add` / `discard`, `from_iterable` -/
+
+theorem foldl_add_spec : ∀ (xs : List α) (s : ISet α), Inv s →
+    Inv (xs.foldl ISet.add s) ∧ (xs.foldl ISet.add s).toList = xs.foldl specAdd s.toList
+  | [], s, h => ⟨h, rfl⟩
+  | x :: xs, s, h => by
+    simp only [List.foldl_cons]
+    have := foldl_add_spec xs (s.add x) (inv_add s h x)
+    rw [toList_add s h.toInvC x] at this
+    exact this
+
+theorem ofList_spec (l : List α) : Inv (ISet.ofList l) ∧ (ISet.ofList l).toList = l.foldl specAdd [] :=
+  foldl_add_spec l ISet.empty inv_empty
+
+theorem foldl_discard_spec (cfg : Cfg) : ∀ (xs : List α) (s : ISet α), Inv s →
+    Inv (xs.foldl (ISet.discard cfg) s) ∧
+      (xs.foldl (ISet.discard cfg) s).toList = xs.foldl List.erase s.toList
+  | [], s, h => ⟨h, rfl⟩
+  | x :: xs, s, h => by
+    simp only [List.foldl_cons]
+    have hd := discard_spec cfg s h x
+    have := foldl_discard_spec cfg xs _ hd.1
+    rw [hd.2] at this
+    exact this
+
+
+/-! ## G. set algebra on plain lists -/
+namespace Spec
+
+@[simp] theorem notIn_eq_true (l : List α) (x : α) : notIn l x = true ↔ x ∉ l := by simp [notIn]
+@[simp] theorem notIn_eq_false (l : List α) (x : α) : notIn l x = false ↔ x ∈ l := by simp [notIn]
+
+theorem mem_specAdd (l : List α) (x y : α) : y ∈ specAdd l x ↔ y ∈ l ∨ y = x := by
+  unfold specAdd; split
+  · constructor
+    · exact Or.inl
+    · rintro (h | h)
+      · exact h
+      · subst h; assumption
+  · simp
+
+theorem nodup_specAdd (l : List α) (x : α) (h : l.Nodup) : (specAdd l x).Nodup := by
+  unfold specAdd; split
+  · exact h
+  · rw [List.nodup_append]; refine ⟨h, by simp, ?_⟩
+    intro a ha b hb e; simp at hb; subst hb; subst e; contradiction
+
+theorem mem_addAll : ∀ (xs l : List α) (y : α), y ∈ addAll l xs ↔ y ∈ l ∨ y ∈ xs
+  | [], l, y => by simp [addAll]
+  | x :: xs, l, y => by
+    have := mem_addAll xs (specAdd l x) y
+    simp only [addAll, List.foldl_cons] at this ⊢
+    rw [this, mem_specAdd]; simp only [List.mem_cons]
+    constructor
+    · rintro ((h | h) | h)
+      · exact Or.inl h
+      · exact Or.inr (Or.inl h)
+      · exact Or.inr (Or.inr h)
+    · rintro (h | h | h)
+      · exact Or.inl (Or.inl h)
+      · exact Or.inl (Or.inr h)
+      · exact Or.inr h
+
+theorem nodup_addAll : ∀ (xs l : List α), l.Nodup → (addAll l xs).Nodup
+  | [], l, h => h
+  | x :: xs, l, h => by
+    have := nodup_addAll xs (specAdd l x) (nodup_specAdd l x h)
+    simpa [addAll] using this
+
+/-- the old items stay in front, in their order -/
+theorem addAll_prefix : ∀ (xs l : List α), l <+: addAll l xs
+  | [], l => by simp [addAll]
+  | x :: xs, l => by
+    have h1 := addAll_prefix xs (specAdd l x)
+    have h2 : l <+: specAdd l x := by unfold specAdd; split <;> simp
+    simpa [addAll] using h2.trans h1
+
+/-- adding items that are all new and distinct is plain concatenation -/
+theorem addAll_nodup : ∀ (xs l : List α), (l ++ xs).Nodup → addAll l xs = l ++ xs
+  | [], l, _ => by simp [addAll]
+  | x :: xs, l, h => by
+    have hx : x ∉ l := by
+      intro hm
+      rw [List.nodup_append] at h
+      exact h.2.2 x hm x (by simp) rfl
+    have : specAdd l x = l ++ [x] := by simp [specAdd, hx]
+    simp only [addAll, List.foldl_cons, this]
+    have := addAll_nodup xs (l ++ [x]) (by simpa using h)
+    simpa [addAll] using this
+
+theorem dedup_nodup_eq (l : List α) (h : l.Nodup) : dedup l = l := by
+  have := addAll_nodup l [] (by simpa using h)
+  simpa [dedup] using this
+
+theorem specAdd_shift (l a : List α) (x : α) :
+    specAdd (l ++ a.filter (notIn l)) x = l ++ (specAdd a x).filter (notIn l) := by
+  unfold specAdd
+  by_cases hl : x ∈ l
+  · have h1 : x ∈ l ++ a.filter (notIn l) := List.mem_append_left _ hl
+    simp only [h1, if_true]
+    split
+    · rfl
+    · simp [List.filter_append, hl]
+  · by_cases ha : x ∈ a
+    · have h1 : x ∈ l ++ a.filter (notIn l) := List.mem_append_right _ (by simp [ha, hl])
+      simp [h1, ha]
+    · have h1 : x ∉ l ++ a.filter (notIn l) := by simp [hl, ha]
+      simp [h1, ha, hl, List.filter_append]
+
+theorem addAll_shift : ∀ (xs l a : List α),
+    addAll (l ++ a.filter (notIn l)) xs = l ++ (addAll a xs).filter (notIn l)
+  | [], l, a => by simp [addAll]
+  | x :: xs, l, a => by
+    simp only [addAll, List.foldl_cons]
+    rw [specAdd_shift]
+    exact addAll_shift xs l (specAdd a x)
+
+/-- union order: the receiver's items, then the operands' distinct new items by first appearance -/
+theorem addAll_eq (l xs : List α) : addAll l xs = l ++ (dedup xs).filter (notIn l) := by
+  have := addAll_shift xs l []
+  simpa [dedup] using this
+
+theorem mem_dedup (xs : List α) (y : α) : y ∈ dedup xs ↔ y ∈ xs := by
+  simp [dedup, mem_addAll]
+
+theorem nodup_dedup (xs : List α) : (dedup xs).Nodup := nodup_addAll xs [] (by simp)
+
+/-- erasing a batch of items from a duplicate-free list = filtering them out -/
+theorem foldl_erase : ∀ (xs l : List α), l.Nodup → xs.foldl List.erase l = l.filter (notIn xs)
+  | [], l, _ => by
+    have : ∀ y ∈ l, notIn [] y = true := by intro y _; simp [notIn]
+    simp [List.filter_eq_self.2 this]
+  | x :: xs, l, h => by
+    simp only [List.foldl_cons]
+    rw [foldl_erase xs (l.erase x) (h.erase x), h.erase_eq_filter x, List.filter_filter]
+    apply List.filter_congr
+    intro y _
+    by_cases hyx : y = x <;> simp [notIn, hyx]
+
+/-- the plain-list toggle of `symmetric_difference_update` -/
+def specToggle (c : List α) (v : α) : List α := if v ∈ c then c.erase v else c ++ [v]
+
+theorem foldl_toggle : ∀ (d c : List α), d.Nodup → c.Nodup →
+    d.foldl specToggle c = c.filter (notIn d) ++ d.filter (notIn c)
+  | [], c, _, _ => by
+    have : ∀ y ∈ c, notIn [] y = true := by intro y _; simp [notIn]
+    simp [List.filter_eq_self.2 this]
+  | v :: d, c, hd, hc => by
+    rw [List.nodup_cons] at hd
+    simp only [List.foldl_cons]
+    by_cases hv : v ∈ c
+    · have ht : specToggle c v = c.erase v := by simp [specToggle, hv]
+      rw [ht, foldl_toggle d (c.erase v) hd.2 (hc.erase v), hc.erase_eq_filter v, List.filter_filter]
+      have e1 : List.filter (fun a => notIn d a && (a != v)) c = c.filter (notIn (v :: d)) := by
+        apply List.filter_congr; intro y _
+        by_cases hyv : y = v <;> simp [notIn, hyv]
+      have e2 : d.filter (notIn (List.filter (fun x => x != v) c)) = (v :: d).filter (notIn c) := by
+        rw [List.filter_cons]
+        have : notIn c v = false := by simp [hv]
+        simp only [this, Bool.false_eq_true, if_false]
+        apply List.filter_congr; intro y hy
+        have hyv : y ≠ v := fun e => hd.1 (e ▸ hy)
+        simp [notIn, hyv]
+      rw [e1, e2]
+    · have ht : specToggle c v = c ++ [v] := by simp [specToggle, hv]
+      have hcn : (c ++ [v]).Nodup := by
+        rw [List.nodup_append]; refine ⟨hc, by simp, ?_⟩
+        intro a ha b hb e; simp at hb; subst hb; subst e; exact hv ha
+      rw [ht, foldl_toggle d (c ++ [v]) hd.2 hcn, List.filter_append]
+      have e1 : c.filter (notIn d) = c.filter (notIn (v :: d)) := by
+        apply List.filter_congr; intro y hy
+        have hyv : y ≠ v := fun e => hv (e ▸ hy)
+        simp [notIn, hyv]
+      have e2 : [v].filter (notIn d) = [v] := by simp [hd.1]
+      have e3 : d.filter (notIn (c ++ [v])) = d.filter (notIn c) := by
+        apply List.filter_congr; intro y hy
+        have hyv : y ≠ v := fun e => hd.1 (e ▸ hy)
+        simp [notIn, hyv]
+      have e4 : (v :: d).filter (notIn c) = v :: d.filter (notIn c) := by
+        rw [List.filter_cons]; simp [hv]
+      rw [e1, e2, e3, e4]; simp
+
+end Spec
+
+open Spec
+
+/-! ### the model's set methods against the plain-list ones -/
+
+theorem toList_nodup {s : ISet α} (h : InvC s) : s.toList.Nodup := h.nodup
+
+theorem opElems_eq (s : ISet α) (o : Operand α) : s.opElems o = opItems s.toList o := by
+  unfold ISet.opElems opItems; cases o.kind <;> rfl
+
+theorem opMem_eq (s : ISet α) (h : InvC s) (o : Operand α) (k : α) : s.opMem o k = memOp s.toList o k := by
+  unfold ISet.opMem memOp opItems
+  cases o.kind with
+  | self =>
+    simp only
+    by_cases hk : k ∈ s.toList
+    · simp [hk, (h.contains_iff k).2 hk]
+    · have : s.contains k = false := by
+        cases hc : s.contains k with
+        | false => rfl
+        | true => exact absurd ((h.contains_iff k).1 hc) hk
+      simp [hk, this]
+  | iset => simp [List.contains_iff_mem]
+  | coll => simp [List.contains_iff_mem]
+
+theorem inAll_eq (s : ISet α) (h : InvC s) (os : List (Operand α)) (k : α) :
+    s.inAll os k = Spec.inAll s.toList os k := by
+  unfold ISet.inAll Spec.inAll
+  induction os with
+  | nil => rfl
+  | cons o os ih => simp [List.all_cons, opMem_eq s h, ih]
+
+theorem inNone_eq (s : ISet α) (h : InvC s) (os : List (Operand α)) (k : α) :
+    s.inNone os k = Spec.inNone s.toList os k := by
+  unfold ISet.inNone Spec.inNone
+  induction os with
+  | nil => rfl
+  | cons o os ih => simp [List.all_cons, opMem_eq s h, ih]
+
+theorem flatMap_opElems (s : ISet α) (os : List (Operand α)) :
+    os.flatMap s.opElems = os.flatMap (opItems s.toList) := by
+  induction os with
+  | nil => rfl
+  | cons o os ih => simp [List.flatMap_cons, opElems_eq, ih]
+
+theorem ofList_nodup (l : List α) (h : l.Nodup) : (ISet.ofList l).toList = l := by
+  rw [(ofList_spec l).2]
+  exact dedup_nodup_eq l h
+
+theorem union_spec (s : ISet α) (h : Inv s) (os : List (Operand α)) :
+    Inv (s.union os) ∧ (s.union os).toList = addAll s.toList (os.flatMap (opItems s.toList)) := by
+  unfold ISet.union
+  refine ⟨(ofList_spec _).1, ?_⟩
+  rw [(ofList_spec _).2, List.foldl_append, flatMap_opElems]
+  have : s.toList.foldl specAdd [] = s.toList := dedup_nodup_eq _ h.nodup
+  rw [this]; rfl
+
+theorem inter_spec (s : ISet α) (h : Inv s) (os : List (Operand α)) :
+    Inv (s.inter os) ∧ (s.inter os).toList = s.toList.filter (Spec.inAll s.toList os) := by
+  unfold ISet.inter
+  refine ⟨(ofList_spec _).1, ?_⟩
+  rw [ofList_nodup _ ((toList_nodup h.toInvC).sublist List.filter_sublist)]
+  exact List.filter_congr (fun k _ => inAll_eq s h.toInvC os k)
+
+theorem diff_spec (s : ISet α) (h : Inv s) (os : List (Operand α)) :
+    Inv (s.diff os) ∧ (s.diff os).toList = s.toList.filter (Spec.inNone s.toList os) := by
+  unfold ISet.diff
+  refine ⟨(ofList_spec _).1, ?_⟩
+  rw [ofList_nodup _ ((toList_nodup h.toInvC).sublist List.filter_sublist)]
+  exact List.filter_congr (fun k _ => inNone_eq s h.toInvC os k)
+
+/-- `difference` against one IndexedSet operand `t` -/
+theorem diff_iset (s t : ISet α) (h : Inv s) :
+    (s.diff [t.asOperand]).toList = s.toList.filter (notIn t.toList) := by
+  rw [(diff_spec s h _).2]
+  apply List.filter_congr
+  intro k _
+  by_cases hk : k ∈ t.toList <;> simp [Spec.inNone, memOp, opItems, ISet.asOperand, notIn, hk]
+
+theorem update_spec (s : ISet α) (h : Inv s) (os : List (Operand α)) :
+    Inv (s.update os) ∧ (s.update os).toList = addAll s.toList (os.flatMap (opItems s.toList)) := by
+  unfold ISet.update
+  cases os with
+  | nil => simp [addAll]; exact h
+  | cons o os =>
+    simp only [List.isEmpty_cons, Bool.false_eq_true, if_false]
+    have := foldl_add_spec ((o :: os).flatMap s.opElems) s h
+    rw [flatMap_opElems] at this
+    exact this
+
+theorem filter_notIn_filter (l : List α) (p : α → Bool) :
+    l.filter (notIn (l.filter fun k => !p k)) = l.filter p := by
+  apply List.filter_congr
+  intro k hk
+  cases hp : p k <;> simp [notIn, hk, hp]
+
+theorem interUpdate_spec (cfg : Cfg) (s : ISet α) (h : Inv s) (os : List (Operand α)) :
+    Inv (s.interUpdate cfg os) ∧ (s.interUpdate cfg os).toList = s.toList.filter (Spec.inAll s.toList os) := by
+  unfold ISet.interUpdate
+  have hf := foldl_discard_spec cfg (s.diff [(s.inter os).asOperand]).toList s h
+  refine ⟨hf.1, ?_⟩
+  rw [hf.2, foldl_erase _ _ (toList_nodup h.toInvC), diff_iset s _ h, (inter_spec s h os).2]
+  have := filter_notIn_filter s.toList (Spec.inAll s.toList os)
+  rw [← this]
+  congr 2
+  apply List.filter_congr
+  intro k hk
+  cases hp : Spec.inAll s.toList os k <;> simp [notIn, hk, hp]
+
+theorem eqOperand_imp (s : ISet α) (o : Operand α) (he : s.eqOperand o = true) :
+    ∀ k ∈ s.toList, k ∈ opItems s.toList o := by
+  unfold ISet.eqOperand at he
+  unfold opItems
+  intro k hk
+  cases hkind : o.kind with
+  | self => simpa using hk
+  | iset =>
+    rw [hkind] at he; simp at he
+    simp only; rw [← he.2]; exact hk
+  | coll =>
+    rw [hkind] at he; simp at he
+    simp only; exact he.1 k hk
+
+theorem diffUpdate_spec (cfg : Cfg) (s : ISet α) (h : Inv s) (os : List (Operand α)) :
+    Inv (s.diffUpdate cfg os) ∧ (s.diffUpdate cfg os).toList = s.toList.filter (Spec.inNone s.toList os) := by
+  have core : ∀ t : ISet α, Inv t →
+      Inv ((t.diff [(t.diff os).asOperand]).toList.foldl (ISet.discard cfg) t) ∧
+      ((t.diff [(t.diff os).asOperand]).toList.foldl (ISet.discard cfg) t).toList =
+        t.toList.filter (Spec.inNone t.toList os) := by
+    intro t ht
+    have hf := foldl_discard_spec cfg (t.diff [(t.diff os).asOperand]).toList t ht
+    refine ⟨hf.1, ?_⟩
+    rw [hf.2, foldl_erase _ _ (toList_nodup ht.toInvC), diff_iset t _ ht, (diff_spec t ht os).2]
+    have := filter_notIn_filter t.toList (Spec.inNone t.toList os)
+    rw [← this]
+    congr 2
+    apply List.filter_congr
+    intro k hk
+    cases hp : Spec.inNone t.toList os k <;> simp [notIn, hk, hp]
+  unfold ISet.diffUpdate
+  by_cases he : os.any s.eqOperand = true
+  · simp only [he, if_true]
+    have hc := core s.clear inv_empty
+    refine ⟨hc.1, ?_⟩
+    rw [hc.2]
+    have hclear : (s.clear).toList = [] := rfl
+    rw [hclear]
+    simp only [List.filter_nil]
+    -- some operand contains every item of the receiver: nothing survives the difference
+    obtain ⟨o, ho, heq⟩ := List.any_eq_true.1 he
+    symm
+    rw [List.filter_eq_nil_iff]
+    intro k hk hall
+    have hm := eqOperand_imp s o heq k hk
+    unfold Spec.inNone at hall
+    have := (List.all_eq_true.1 hall) o ho
+    simp [memOp, hm] at this
+  · simp only [he, if_false]
+    exact core s h
+
+
+theorem symdiff_spec (s : ISet α) (h : Inv s) (o : Operand α) :
+    Inv (s.symdiff [o]) ∧ (s.symdiff [o]).toList = symdiff1 s.toList o := by
+  unfold ISet.symdiff
+  have hU := union_spec s h [o]
+  have hI := inter_spec s h [o]
+  refine ⟨(diff_spec _ hU.1 _).1, ?_⟩
+  rw [diff_iset _ _ hU.1, hU.2, hI.2]
+  simp only [List.flatMap_cons, List.flatMap_nil, List.append_nil]
+  rw [addAll_eq, List.filter_append]
+  unfold symdiff1
+  congr 1
+  · apply List.filter_congr
+    intro k hk
+    by_cases hm : k ∈ opItems s.toList o <;> simp [notIn, Spec.inAll, memOp, hk, hm]
+  · rw [List.filter_eq_self]
+    intro k hk
+    have hkl : k ∉ s.toList := by
+      have := (List.mem_filter.1 hk).2
+      simpa using this
+    simp [notIn, hkl]
+
+theorem toggle_spec (cfg : Cfg) (s : ISet α) (h : Inv s) (v : α) :
+    Inv (s.toggle cfg v) ∧ (s.toggle cfg v).toList = specToggle s.toList v := by
+  unfold ISet.toggle specToggle
+  by_cases hv : v ∈ s.toList
+  · have := (h.toInvC.contains_iff v).2 hv
+    simp only [this, if_true, hv]
+    exact discard_spec cfg s h v
+  · have hc : s.contains v = false := by
+      cases hc : s.contains v with
+      | false => rfl
+      | true => exact absurd ((h.toInvC.contains_iff v).1 hc) hv
+    simp only [hc, Bool.false_eq_true, if_false, hv]
+    refine ⟨inv_add s h v, ?_⟩
+    rw [toList_add s h.toInvC v]; simp [hv]
+
+theorem foldl_toggle_spec (cfg : Cfg) : ∀ (d : List α) (s : ISet α), Inv s →
+    Inv (d.foldl (ISet.toggle cfg) s) ∧ (d.foldl (ISet.toggle cfg) s).toList = d.foldl specToggle s.toList
+  | [], s, h => ⟨h, rfl⟩
+  | v :: d, s, h => by
+    simp only [List.foldl_cons]
+    have ht := toggle_spec cfg s h v
+    have := foldl_toggle_spec cfg d _ ht.1
+    rw [ht.2] at this
+    exact this
+
+theorem symUpdate_spec (cfg : Cfg) (s : ISet α) (h : Inv s) (o : Operand α) :
+    Inv (s.symUpdate cfg o) ∧ (s.symUpdate cfg o).toList = symdiff1 s.toList o := by
+  unfold ISet.symUpdate symdiff1 opItems
+  cases hk : o.kind with
+  | self =>
+    simp only
+    refine ⟨inv_empty, ?_⟩
+    have e1 : s.toList.filter (notIn s.toList) = [] := by
+      rw [List.filter_eq_nil_iff]; intro k hk; simp [notIn, hk]
+    have e2 : (dedup s.toList).filter (notIn s.toList) = [] := by
+      rw [List.filter_eq_nil_iff]; intro k hk
+      have := (mem_dedup s.toList k).1 hk
+      simp [notIn, this]
+    rw [e1, e2]; rfl
+  | iset =>
+    simp only
+    have hd : (ISet.ofList o.elems).toList = dedup o.elems := (ofList_spec o.elems).2
+    have hf := foldl_toggle_spec cfg (ISet.ofList o.elems).toList s h
+    refine ⟨hf.1, ?_⟩
+    rw [hf.2, hd, foldl_toggle _ _ (nodup_dedup _) (toList_nodup h.toInvC)]
+    congr 1
+    apply List.filter_congr
+    intro k _
+    by_cases hm : k ∈ o.elems <;> simp [notIn, mem_dedup, hm]
+  | coll =>
+    simp only
+    have hd : (ISet.ofList o.elems).toList = dedup o.elems := (ofList_spec o.elems).2
+    have hf := foldl_toggle_spec cfg (ISet.ofList o.elems).toList s h
+    refine ⟨hf.1, ?_⟩
+    rw [hf.2, hd, foldl_toggle _ _ (nodup_dedup _) (toList_nodup h.toInvC)]
+    congr 1
+    apply List.filter_congr
+    intro k _
+    by_cases hm : k ∈ o.elems <;> simp [notIn, mem_dedup, hm]
+
+theorem contains_eq (s : ISet α) (h : InvC s) (k : α) : s.contains k = decide (k ∈ s.toList) := by
+  by_cases hk : k ∈ s.toList
+  · simp [hk, (h.contains_iff k).2 hk]
+  · cases hc : s.contains k with
+    | false => simp [hk]
+    | true => exact absurd ((h.contains_iff k).1 hc) hk
+
+theorem rsub_spec (s : ISet α) (h : Inv s) (o : Operand α) :
+    s.rsub o = (opItems s.toList o).filter (notIn s.toList) := by
+  unfold ISet.rsub
+  rw [opElems_eq]
+  apply List.filter_congr
+  intro k _
+  simp [contains_eq s h.toInvC, notIn]
+
+theorem issuperset_spec (s : ISet α) (h : Inv s) (o : Operand α) :
+    s.issuperset o = (opItems s.toList o).all fun x => decide (x ∈ s.toList) := by
+  unfold ISet.issuperset
+  rw [opElems_eq]
+  congr 1
+  funext k
+  exact contains_eq s h.toInvC k
+
+theorem isdisjoint_spec (s : ISet α) (h : Inv s) (o : Operand α) :
+    s.isdisjoint o = (opItems s.toList o).all (notIn s.toList) := by
+  unfold ISet.isdisjoint
+  rw [opElems_eq]
+  congr 1
+  funext k
+  simp [contains_eq s h.toInvC, notIn]
+
+theorem issubset_spec (s : ISet α) (h : Inv s) (o : Operand α) :
+    s.issubset o = s.toList.all (memOp s.toList o) := by
+  unfold ISet.issubset
+  have hall : (IMap.keys s.idx).all (s.opMem o) = s.toList.all (memOp s.toList o) := by
+    rw [h.perm.all_eq]
+    show s.toList.all (s.opMem o) = s.toList.all (memOp s.toList o)
+    congr 1
+    funext k
+    exact opMem_eq s h.toInvC o k
+  by_cases hlt : s.opLen o < s.len
+  · simp only [hlt, if_true]
+    symm
+    cases hc : s.toList.all (memOp s.toList o) with
+    | false => rfl
+    | true =>
+      exfalso
+      have hsub : s.toList ⊆ opItems s.toList o := by
+        intro k hk
+        have := (List.all_eq_true.1 hc) k hk
+        simpa [memOp] using this
+      have hle := (toList_nodup h.toInvC).length_le_of_subset hsub
+      rw [h.toInvC.len_eq] at hlt
+      unfold ISet.opLen at hlt
+      unfold opItems at hle
+      cases hk : o.kind <;> simp only [hk] at hlt hle
+      · rw [h.toInvC.len_eq] at hlt; omega
+      · omega
+      · omega
+  · simp only [hlt, if_false]
+    exact hall
+
+
+/-! ## H. slices -/
+
+theorem pickIdx_sublist (sel : Nat → Bool) : ∀ (l : List α) (j : Nat), (pickIdx sel j l).Sublist l
+  | [], _ => by simp [pickIdx]
+  | x :: xs, j => by
+    simp only [pickIdx]; split
+    · exact (pickIdx_sublist sel xs (j + 1)).cons_cons x
+    · exact (pickIdx_sublist sel xs (j + 1)).cons x
+
+/-- positions below `start` are never selected: skip them -/
+theorem pickIdx_drop (start stop c : Nat) : ∀ (l : List α) (j : Nat), j ≤ start →
+    pickIdx (sliceSel start stop c) j l = pickIdx (sliceSel start stop c) start (l.drop (start - j))
+  | [], j, _ => by simp [pickIdx]
+  | x :: xs, j, hj => by
+    by_cases he : j = start
+    · subst he; simp
+    · have hlt : j < start := by omega
+      have hsel : sliceSel start stop c j = false := by simp [sliceSel]; omega
+      have hd : start - j = (start - (j + 1)) + 1 := by omega
+      simp only [pickIdx, hsel, Bool.false_eq_true, if_false]
+      rw [pickIdx_drop start stop c xs (j + 1) (by omega), hd, List.drop_succ_cons]
+
+/-- positions at or beyond `stop` are never selected: cut them -/
+theorem pickIdx_take (start stop c : Nat) : ∀ (l : List α) (j : Nat),
+    pickIdx (sliceSel start stop c) j l = pickIdx (sliceSel start stop c) j (l.take (stop - j))
+  | [], j => by simp [pickIdx]
+  | x :: xs, j => by
+    by_cases hlt : j < stop
+    · have hd : stop - j = (stop - (j + 1)) + 1 := by omega
+      rw [hd, List.take_succ_cons]
+      simp only [pickIdx]
+      rw [← pickIdx_take start stop c xs (j + 1)]
+    · have h0 : stop - j = 0 := by omega
+      have hsel : sliceSel start stop c j = false := by simp [sliceSel]; omega
+      simp only [h0, List.take_zero, pickIdx, hsel, Bool.false_eq_true, if_false]
+      have : ∀ (l : List α) (j : Nat), stop ≤ j → pickIdx (sliceSel start stop c) j l = [] := by
+        intro l; induction l with
+        | nil => intro j _; rfl
+        | cons y ys ih =>
+          intro j hj
+          have hsel : sliceSel start stop c j = false := by simp [sliceSel]; omega
+          simp only [pickIdx, hsel, Bool.false_eq_true, if_false]
+          exact ih (j + 1) (by omega)
+      exact this xs (j + 1) (by omega)
+
+/-- within the bounds the selection is "every c-th"; `t` counts down to the next pick -/
+theorem pickIdx_stride (start stop c : Nat) (hc : 0 < c) : ∀ (l : List α) (j t : Nat),
+    start ≤ j → j + l.length ≤ stop → t < c → (j - start + t) % c = 0 →
+    pickIdx (sliceSel start stop c) j l = everyNth c t l
+  | [], j, t, _, _, _, _ => by cases t <;> simp [pickIdx, everyNth]
+  | x :: xs, j, t, hj, hl, ht, hm => by
+    simp only [List.length_cons] at hl
+    cases t with
+    | zero =>
+      have hsel : sliceSel start stop c j = true := by
+        simp [sliceSel]; refine ⟨hj, by omega, ?_⟩; simpa using hm
+      simp only [pickIdx, hsel, if_true, everyNth]
+      rw [pickIdx_stride start stop c hc xs (j + 1) (c - 1) (by omega) (by omega) (by omega) ?_]
+      have e : j + 1 - start + (c - 1) = (j - start) + c := by omega
+      rw [e, Nat.add_mod_right]; simpa using hm
+    | succ k =>
+      have hsel : sliceSel start stop c j = false := by
+        simp only [sliceSel, decide_eq_false_iff_not]
+        rintro ⟨_, _, h0⟩
+        have : (j - start + (k + 1)) % c = k + 1 := by
+          rw [Nat.add_mod, h0, Nat.zero_add, Nat.mod_mod, Nat.mod_eq_of_lt ht]
+        omega
+      simp only [pickIdx, hsel, Bool.false_eq_true, if_false, everyNth]
+      apply pickIdx_stride start stop c hc xs (j + 1) k (by omega) (by omega) (by omega)
+      have e : j + 1 - start + k = j - start + (k + 1) := by omega
+      rw [e]; exact hm
+
+/-- `islice` over the plain iteration is Python's list slicing (positive step) -/
+theorem islice_eq_pickIdx (l : List α) (start : Nat) (stop : Option Nat) (c : Nat) (hc : 0 < c) :
+    islice l start stop c = pickIdx (sliceSel start (stop.getD l.length) c) 0 l := by
+  unfold islice
+  rw [pickIdx_drop start _ c l 0 (Nat.zero_le _), pickIdx_take, Nat.sub_zero]
+  have key : ∀ e : Nat, pickIdx (sliceSel start e c) start (List.take (e - start) (List.drop start l))
+      = everyNth c 0 ((l.take e).drop start) := by
+    intro e
+    rw [List.drop_take]
+    by_cases hes : e < start
+    · have h0 : e - start = 0 := by omega
+      simp [h0, pickIdx, everyNth]
+    · apply pickIdx_stride start e c hc _ start 0 (Nat.le_refl _) ?_ hc (by simp)
+      rw [List.length_take]; omega
+  cases stop with
+  | none =>
+    simp only [Option.getD_none]
+    rw [key l.length, List.take_length]
+  | some e => simp only [Option.getD_some]; exact (key e).symm
+
+
+theorem normBound_eq (n : Nat) (v : Int) : normBound n (some v) = some (sliceBound n v) := by
+  simp only [normBound, sliceBound]; split <;> rfl
+
+/-- `s[a:b:c]`, `c` positive or omitted -/
+theorem getSlice_spec (s : ISet α) (h : Inv s) (a b : Option Int) (c : Nat) (hc : 0 < c)
+    (co : Option Int) (hco : (co = none ∧ c = 1) ∨ co = some (c : Int)) :
+    ∃ t, s.getSlice a b co = .ok t ∧ Inv t ∧ t.toList = pySlice s.toList a b c := by
+  have hlen := h.toInvC.len_eq
+  have hiter : s.iterSlice a b co = .ok (islice s.toList ((normBound s.len a).getD 0) (normBound s.len b) c) := by
+    unfold ISet.iterSlice
+    rcases hco with ⟨h1, h2⟩ | h1
+    · subst h1; subst h2; rfl
+    · subst h1
+      have h0 : ¬ ((c : Int) = 0) := by omega
+      have hneg : ¬ ((c : Int) < 0) := by omega
+      simp [h0, hneg]; omega
+  unfold ISet.getSlice
+  rw [hiter]
+  simp only
+  refine ⟨_, rfl, (ofList_spec _).1, ?_⟩
+  rw [islice_eq_pickIdx _ _ _ _ hc]
+  rw [ofList_nodup _ ((toList_nodup h.toInvC).sublist (pickIdx_sublist _ _ _))]
+  unfold pySlice
+  rw [hlen]
+  congr 2
+  · cases a with
+    | none => rfl
+    | some v => rw [normBound_eq]; rfl
+  · cases b with
+    | none => rfl
+    | some v => rw [normBound_eq]; rfl
+
+
+/-! ## I. one step of a history -/
+
+theorem pyIndex_some (n : Nat) (i : Int) (k : Nat) (h : pyIndex n i = some k) :
+    k < n ∧ (i = (k : Int) ∨ i = (k : Int) - (n : Int)) := by
+  unfold pyIndex at h
+  split at h
+  · simp at h; omega
+  · split at h
+    · simp at h; omega
+    · cases h
+
+theorem step_refines (cfg : Cfg) (le : α → α → Bool) (s : ISet α) (h : Inv s) (op : Op α)
+    (hv : ValidOp s.toList op) :
+    Inv (step cfg le s op).1 ∧ (step cfg le s op).1.toList = (Spec.step le s.toList op).1 ∧
+      (step cfg le s op).2 = (Spec.step le s.toList op).2 := by
+  cases op with
+  | add x => exact ⟨inv_add s h x, by simp [step, Spec.step, toList_add s h.toInvC x, specAdd], rfl⟩
+  | remove x =>
+    simp only [step, Spec.step]
+    by_cases hx : x ∈ s.toList
+    · obtain ⟨s', h1, h2, h3⟩ := (remove_spec cfg s h x).1 hx
+      simp [h1, hx, h2, h3]
+    · simp [(remove_spec cfg s h x).2 hx, hx, h]
+  | discard x =>
+    have := discard_spec cfg s h x
+    exact ⟨this.1, this.2, rfl⟩
+  | pop =>
+    simp only [step, Spec.step]
+    by_cases hne : s.toList = []
+    · simp [(popLast_spec cfg s h).2 hne, hne, h]
+    · obtain ⟨s', h1, h2, h3⟩ := (popLast_spec cfg s h).1 hne
+      have hl : s.toList.getLast? = some (s.toList.getLast hne) := List.getLast?_eq_some_getLast hne
+      simp [h1, hl, h2, h3]
+  | popAt i =>
+    simp only [step, Spec.step]
+    simp only [ValidOp] at hv
+    cases hp : pyIndex s.toList.length i with
+    | none => rw [hp] at hv; cases hv
+    | some k =>
+      obtain ⟨hk, hi⟩ := pyIndex_some _ _ _ hp
+      obtain ⟨s', h1, h2, h3⟩ := popAt_spec cfg s h k hk i hi
+      simp [h1, h2, h3, List.getElem?_eq_getElem hk]
+  | clear => exact ⟨inv_empty, rfl, rfl⟩
+  | sort rev =>
+    have := sort_spec le rev s h
+    exact ⟨this.1, this.2, rfl⟩
+  | reverse =>
+    have := reverse_spec s h
+    exact ⟨this.1, this.2, rfl⟩
+  | update os =>
+    have := update_spec s h os
+    exact ⟨this.1, this.2, rfl⟩
+  | interUpdate os =>
+    have := interUpdate_spec cfg s h os
+    exact ⟨this.1, this.2, rfl⟩
+  | diffUpdate os =>
+    have := diffUpdate_spec cfg s h os
+    exact ⟨this.1, this.2, rfl⟩
+  | symUpdate o =>
+    have := symUpdate_spec cfg s h o
+    exact ⟨this.1, this.2, rfl⟩
+  | iter => exact ⟨h, rfl, rfl⟩
+  | len => exact ⟨h, rfl, by simp [step, Spec.step, h.toInvC.len_eq]⟩
+  | contains x => exact ⟨h, rfl, by simp [step, Spec.step, contains_eq s h.toInvC x]⟩
+  | get i =>
+    refine ⟨h, rfl, ?_⟩
+    simp only [step, Spec.step]
+    simp only [ValidOp] at hv
+    cases hp : pyIndex s.toList.length i with
+    | none => rw [hp] at hv; cases hv
+    | some k =>
+      obtain ⟨hk, hi⟩ := pyIndex_some _ _ _ hp
+      simp [getItem_spec s h k hk i hi, List.getElem?_eq_getElem hk]
+  | slice a b c =>
+    refine ⟨h, rfl, ?_⟩
+    simp only [step, Spec.step]
+    simp only [ValidOp] at hv
+    rcases hv with hv | ⟨v, hv, hpos⟩
+    · subst hv
+      obtain ⟨t, h1, _, h3⟩ := getSlice_spec s h a b 1 (by omega) none (Or.inl ⟨rfl, rfl⟩)
+      simp [h1, h3]
+    · subst hv
+      have hv0 : ¬ v = 0 := by omega
+      have hvn : (v.toNat : Int) = v := Int.toNat_of_nonneg (by omega)
+      obtain ⟨t, h1, _, h3⟩ := getSlice_spec s h a b v.toNat (by omega) (some v) (Or.inr (by rw [hvn]))
+      simp [h1, h3, hv0]
+  | index x =>
+    refine ⟨h, rfl, ?_⟩
+    simp only [step, Spec.step]
+    by_cases hx : x ∈ s.toList
+    · simp [(index_spec s h x).1 hx, hx]
+    · simp [(index_spec s h x).2 hx, hx]
+  | count x =>
+    refine ⟨h, rfl, ?_⟩
+    simp only [step, Spec.step, ISet.count, contains_eq s h.toInvC x]
+    rw [(toList_nodup h.toInvC).count]
+    by_cases hx : x ∈ s.toList <;> simp [hx]
+  | reversed => exact ⟨h, rfl, by simp [step, Spec.step, reversed_eq]⟩
+  | union os => exact ⟨h, rfl, by simp [step, Spec.step, (union_spec s h os).2]⟩
+  | inter os => exact ⟨h, rfl, by simp [step, Spec.step, (inter_spec s h os).2]⟩
+  | diff os => exact ⟨h, rfl, by simp [step, Spec.step, (diff_spec s h os).2]⟩
+  | symdiff os =>
+    refine ⟨h, rfl, ?_⟩
+    simp only [ValidOp] at hv
+    match os, hv with
+    | [o], _ => simp [step, Spec.step, (symdiff_spec s h o).2]
+  | rsub o => exact ⟨h, rfl, by simp [step, Spec.step, rsub_spec s h o]⟩
+  | issubset o => exact ⟨h, rfl, by simp [step, Spec.step, issubset_spec s h o]⟩
+  | issuperset o => exact ⟨h, rfl, by simp [step, Spec.step, issuperset_spec s h o]⟩
+  | isdisjoint o => exact ⟨h, rfl, by simp [step, Spec.step, isdisjoint_spec s h o]⟩
+
+
+theorem popLast_inv (cfg : Cfg) (s : ISet α) (h : Inv s) :
+    ∀ r, s.popLast cfg = .ok r → Inv r.1 := by
+  intro r hr
+  by_cases hne : s.toList = []
+  · rw [(popLast_spec cfg s h).2 hne] at hr; cases hr
+  · obtain ⟨s', h1, h2, _⟩ := (popLast_spec cfg s h).1 hne
+    rw [h1] at hr; cases hr; exact h2
+
+theorem popAt_inv (cfg : Cfg) (s : ISet α) (h : Inv s) (i : Int) :
+    ∀ r, s.popAt cfg i = .ok r → Inv r.1 := by
+  intro r hr
+  unfold ISet.popAt at hr
+  split at hr
+  · exact popLast_inv cfg s h r hr
+  · split at hr
+    · cases hr
+    · next k _ =>
+      simp only at hr
+      split at hr
+      · cases hr
+      · cases hr
+      · next x hx =>
+        cases hr
+        exact (cull_spec cfg _ (invC_kill s h.toInvC _ x hx).1).1
+
+/-- every operation, with any argument whatsoever, preserves the representation invariant -/
+theorem step_inv (cfg : Cfg) (le : α → α → Bool) (s : ISet α) (h : Inv s) (op : Op α) :
+    Inv (step cfg le s op).1 := by
+  cases op with
+  | popAt i =>
+    simp only [step]
+    cases hr : s.popAt cfg i with
+    | error e => exact h
+    | ok r => exact popAt_inv cfg s h i r hr
+  | get i => exact h
+  | slice a b c => exact h
+  | symdiff os => exact h
+  | add x => exact (step_refines cfg le s h (.add x) trivial).1
+  | remove x => exact (step_refines cfg le s h (.remove x) trivial).1
+  | discard x => exact (step_refines cfg le s h (.discard x) trivial).1
+  | pop => exact (step_refines cfg le s h .pop trivial).1
+  | clear => exact (step_refines cfg le s h .clear trivial).1
+  | sort rev => exact (step_refines cfg le s h (.sort rev) trivial).1
+  | reverse => exact (step_refines cfg le s h .reverse trivial).1
+  | update os => exact (step_refines cfg le s h (.update os) trivial).1
+  | interUpdate os => exact (step_refines cfg le s h (.interUpdate os) trivial).1
+  | diffUpdate os => exact (step_refines cfg le s h (.diffUpdate os) trivial).1
+  | symUpdate o => exact (step_refines cfg le s h (.symUpdate o) trivial).1
+  | iter => exact h
+  | len => exact h
+  | contains x => exact h
+  | index x => exact h
+  | count x => exact h
+  | reversed => exact h
+  | union os => exact h
+  | inter os => exact h
+  | diff os => exact h
+  | rsub o => exact h
+  | issubset o => exact h
+  | issuperset o => exact h
+  | isdisjoint o => exact h
+
+theorem runState_inv (cfg : Cfg) (le : α → α → Bool) : ∀ (ops : List (Op α)) (s : ISet α), Inv s →
+    Inv (runState cfg le s ops)
+  | [], s, h => h
+  | op :: ops, s, h => runState_inv cfg le ops _ (step_inv cfg le s h op)
+
+theorem run_refines (cfg : Cfg) (le : α → α → Bool) : ∀ (ops : List (Op α)) (s : ISet α), Inv s →
+    ValidRun le s.toList ops →
+    runOuts cfg le s ops = Spec.runOuts le s.toList ops ∧
+      (runState cfg le s ops).toList = Spec.runState le s.toList ops
+  | [], s, h, _ => ⟨rfl, rfl⟩
+  | op :: ops, s, h, hv => by
+    obtain ⟨hv1, hv2⟩ := hv
+    obtain ⟨h1, h2, h3⟩ := step_refines cfg le s h op hv1
+    rw [← h2] at hv2
+    have ih := run_refines cfg le ops _ h1 hv2
+    simp only [runOuts, runState, Spec.runOuts, Spec.runState]
+    rw [h3, ih.1, ih.2, h2]
+    exact ⟨rfl, rfl⟩
+
+
+end C11
